@@ -50,3 +50,13 @@ Definition prefix_lines (l : bytes) (k : nat) : list bytes :=
 (* the file control record as the reader sees it when the text ends after c complete
    characters and j leftover bytes of it *)
 Definition cut_ctl (l : bytes) (c j : nat) : bytes := pad94 (cut_chars l c j).
+
+(* a layout whose String() is ASCII whatever the field values are: constant ASCII text
+   and numeric renderers only (the two file control layouts, checked on Gen/Layouts.v) *)
+Definition numeric_seg (s : seg) : bool :=
+  match s with
+  | SLit bs => forallb (fun b => (b <? 128)%N) bs
+  | SNum _ _ | SItoa _ => true
+  | _ => false
+  end.
+Definition numeric_layout (L : layout) : bool := forallb numeric_seg (l_segs L).
